@@ -665,3 +665,24 @@ func (rm *room) sibling() *room {
 	rm.now = o.now
 	return &o
 }
+
+// restart simulates a crash/restart of the resident: every stored event is
+// persisted as headered JSON and loaded back.
+func (rm *room) restart() {
+	for _, id := range rm.order {
+		n := rm.nodes[id]
+		h, err := n.ev.ToHeaderedJSON()
+		if err != nil {
+			rm.r.Probe("restart_persist_failed")
+			continue
+		}
+		ev, err := gmsl.NewEventFromHeaderedJSON(h, false)
+		if err != nil || ev.EventID() != id {
+			rm.r.Probe("restart_reload_changed_event")
+			continue
+		}
+		n.ev = ev
+	}
+	rm.r.Fault("crash_restart")
+	rm.r.Logf("resident restarted: %d events reloaded from headered JSON", len(rm.order))
+}
